@@ -408,6 +408,10 @@ func TestC10(t *testing.T) {
 			run.Violation("shape:input-modified:struct-by-value", "Process modified the payload it was given (root struct passed by value)", wit("input after Process: "+a))
 			continue
 		}
+		if res.Err == nil && res.Out != nil && reflect.TypeOf(res.Out.Payload) != reflect.TypeOf(ev.Payload) {
+			run.Violation("shape:type-changed:struct-by-value", fmt.Sprintf("a root struct passed by value (%T) was forwarded as %T", ev.Payload, res.Out.Payload), wit(""))
+			continue
+		}
 		if res.Err == nil && res.Out != nil && res.Out != ev {
 			scramble(reflect.ValueOf(&res.Out.Payload).Elem(), 0)
 			if a := renderS(ev.Payload, false); a != twinR {
